@@ -3,9 +3,9 @@
    (real number) instance.  NOT proved (and not claimed): the topological fact that a non-zero
    crossing number means "enclosed" for a simple polygon (Jordan curve theorem); the crossing
    number written with exact cross products is taken as the specification of inside. *)
-From Coq Require Import Reals List ZArith Permutation Lra Floats.
+From Coq Require Import Reals List ZArith Permutation Lra Floats QArith.
 From Sdfx Require Import Num.Ops Num.RInst Geo.Vec Geo.Box Geo.BoxR Sdf.Poly Sdf.PolyR Sdf.PolyTreeR Sdf.PolyClipR.
-From Sdfx Require Import Num.FInst Sdf.C04Corr.
+From Sdfx Require Import Num.FInst Num.QInst Sdf.C04Corr.
 Import ListNotations.
 Open Scope R_scope.
 
@@ -108,32 +108,87 @@ Theorem C04_winding_clipped_check_sound : forall tree segs chains,
 Proof. exact winding_clipped_check_sound. Qed.
 Print Assumptions C04_winding_clipped_check_sound.
 
-(* (7) PARTIAL.  The model of Box2.lineIntersect / tAppend / Snap: every piece it returns is a
-   sub-segment of the line (parameters 0 <= s <= t <= 1), inside the box, oriented like the line -
-   under the hypothesis that Snap moves no candidate point (each candidate lies exactly on a box
-   side or farther than the tolerance 1e-9 from it).
-   NOT proved (the gap to "qt_build produces a well_clipped family"): completeness - that the
-   pieces of the four children chain up to the parent piece with none lost or doubled - which also
-   needs the separation hypothesis that distinct crossing parameters are at least `tolerance`
-   apart (tAppend merges closer ones, so the unconditional statement is false; the corpus polygon
-   near-split-vertex-5e-10 is a counterexample on the real code).  On every tested polygon the
-   gap is closed by the certificate instead: the model rebuilds the dumped tree bit for bit and
-   well_clipped_check accepts that tree. *)
-Theorem C04_clip_correct_partial : forall (a : Box2 ROps) (l : Seg ROps) (P Q : V2 ROps),
-  snap_inert a l -> line_intersect a l = Some (P, Q) ->
-  exists s t, in01 s /\ in01 t /\ s <= t /\ P = pt (fst l) (snd l) s /\ Q = pt (fst l) (snd l) t /\
-              box2_contains a P = true /\ box2_contains a Q = true.
-Proof. exact clip_sound_partial. Qed.
-Print Assumptions C04_clip_correct_partial.
-Example C04_clip_hyp_satisfiable : snap_inert exc_box exc_seg.
-Proof. exact exc_snap_inert. Qed.
+(* (7) FULL (this was C04_clip_correct_partial before the repair of Box2.lineIntersect).  The model
+   of Box2.lineClip / Box2.lineIntersect (clipping by coordinates, no tolerance): for EVERY box with
+   a positive extent and EVERY segment owned by it (end points in the closed box, not running along
+   its top or right edge) the pieces returned for the four sub-quadrants are, up to order, a chain
+   of the segment - consecutive pieces share their joint, the joints lie on the segment with
+   increasing parameters, none lost, none doubled - and each piece is owned by its quadrant.
+   No separation or tolerance hypothesis.  (math.Nextafter, which keeps a rounded cut point off the
+   top of the range at float64, is the identity at the real instance.) *)
+Theorem C04_clip_correct : forall (a : Box2 ROps) (l : Seg ROps), good a -> owned a l ->
+  exists ch, is_chain l ch /\
+    Permutation (o2l (line_intersect idn (quad0 a) l) ++ o2l (line_intersect idn (quad1 a) l) ++
+                 o2l (line_intersect idn (quad2 a) l) ++ o2l (line_intersect idn (quad3 a) l)) ch /\
+    (forall P, line_intersect idn (quad0 a) l = Some P -> owned (quad0 a) P) /\
+    (forall P, line_intersect idn (quad1 a) l = Some P -> owned (quad1 a) P) /\
+    (forall P, line_intersect idn (quad2 a) l = Some P -> owned (quad2 a) P) /\
+    (forall P, line_intersect idn (quad3 a) l = Some P -> owned (quad3 a) P).
+Proof. exact quad_split. Qed.
+Print Assumptions C04_clip_correct.
 
-(* The pinned commit violated the property.  Witness (float64 instance of the model, evaluated by
+(* ... hence, by induction over the levels: qtBuild on ANY list of segments owned by its box yields a
+   tree whose pieces are exactly the pieces of chains of the segments, each piece in the closed box
+   of every node above it, on its child's side of every centre, and (square boxes) inside the square
+   minBoxDist2 measures *)
+Theorem C04_qt_build_clipped : forall (fuel : nat) (a : Box2 ROps) (ls : list (Seg ROps)),
+  good a -> Forall (owned a) ls ->
+  (exists chains, Forall2 is_chain ls chains /\ Permutation (pieces (qt_build idn fuel a ls)) (concat chains)) /\
+  Forall (contained a) (pieces (qt_build idn fuel a ls)) /\ ray_ok (qt_build idn fuel a ls) /\
+  (square a -> box_ok (qt_build idn fuel a ls)).
+Proof. exact qt_build_clipped. Qed.
+Print Assumptions C04_qt_build_clipped.
+
+(* ... and for Mesh2D itself (root box = the bounding box squared up and scaled by 1.01): the tree
+   built for ANY non-empty list of non-degenerate segments, to any depth, is well_clipped - the
+   certificate of (6) always holds - so the quadtree evaluation equals the brute-force evaluation at
+   EVERY point of the plane *)
+Theorem C04_mesh2d_well_clipped : forall (n : nat) (ls : list (Seg ROps)), ls <> [] -> Forall nondeg ls ->
+  well_clipped (mesh2d idn n ls) ls.
+Proof. exact mesh2d_well_clipped. Qed.
+Print Assumptions C04_mesh2d_well_clipped.
+
+Theorem C04_mesh2d_fast_eq_slow : forall (n : nat) (ls : list (Seg ROps)), ls <> [] -> Forall nondeg ls ->
+  forall p, eval_fast (qt_map new_line_info (mesh2d idn n ls)) p = eval_slow (convert_lines ls) p.
+Proof. exact mesh2d_fast_eq_slow. Qed.
+Print Assumptions C04_mesh2d_fast_eq_slow.
+
+(* the inside/outside half holds without the non-degeneracy hypothesis, as soon as the bounding box
+   has a positive extent *)
+Theorem C04_mesh2d_winding_eq_slow : forall (n : nat) (l0 : Seg ROps) (ls : list (Seg ROps)),
+  (let bb := mesh_bb (l0 :: ls) in 0 < Rmax (vx (b2max bb) - vx (b2min bb)) (vy (b2max bb) - vy (b2min bb))) ->
+  forall p, qt_winding (qt_map new_line_info (mesh2d idn n (l0 :: ls))) p 0%Z = snd (slow_loop (convert_lines (l0 :: ls)) p).
+Proof. exact mesh2d_winding_eq_slow. Qed.
+Print Assumptions C04_mesh2d_winding_eq_slow.
+
+(* The code before "fix: Box2.lineIntersect clips by coordinates" violated the property.  Witness
+   (float64 instance of the model of the OLD lineIntersect - candidate parameters merged and points
+   snapped within 1e-9 -, evaluated by the kernel): the documented example examples/bezier egg1.  A
+   vertex lies 2 ulp above the centre line of the quadtree box; it was snapped onto the line in one
+   leaf piece and not in its neighbour, so at (-67.678, 7.9999999999999991) - left of the bounding
+   box, exact rational crossing number 0, brute force 0 - the old quadtree walk counts -1 and
+   Evaluate returns -67.678 (inside).  The repaired model: 0 and +67.678.  Replayed on the
+   implementation: corpus/C04.json (bezier-egg1). *)
+Theorem C04_pinned_snap_refuted :
+  exists (verts : list (float * float)) (p : V2 FOps),
+    let segs := segsF verts in
+    PrimFloat.ltb (vx p) (vx (b2min (@mesh_bb FOps segs))) = true /\
+    @wn_spec QOps (map seg_to_Q segs) (mkV2 (F2Q (vx p)) (F2Q (vy p))) = 0%Z /\
+    snd (@slow_loop FOps (@convert_lines FOps segs) p) = 0%Z /\
+    fwalk (@mesh2d_snap FOps 3 segs) p = (-1)%Z /\
+    PrimFloat.ltb (ffast (@mesh2d_snap FOps 3 segs) p) 0%float = true /\
+    fwalk (@mesh2d FOps fnextafter 3 segs) p = 0%Z /\
+    PrimFloat.ltb 0%float (ffast (@mesh2d FOps fnextafter 3 segs) p) = true.
+Proof. exact pinned_snap_refuted. Qed.
+Print Assumptions C04_pinned_snap_refuted.
+
+(* The pinned commit violated the property in a second way (repaired earlier, "fix: ... keeps the end
+   points of a clipped line bit-exact").  Witness (float64 instance of the model, evaluated by
    the kernel): for the edge of the 10-vertex star arriving at the inner vertex with
    y = -0.2351141009169893 the pinned clipping recomputed the end point as u + v*1, one ulp off;
    at the point (-0.809..., -0.2351141009169893), level with that vertex, the clipped piece then
-   counts as an upward crossing (1) which the edge itself does not make (0); the repaired
-   clip_pt returns the vertex itself.  Replayed on the implementation: corpus/C04.json. *)
+   counts as an upward crossing (1) which the edge itself does not make (0); clip_pt (the code
+   between the two repairs) returns the vertex itself.  Replayed on the implementation: corpus/C04.json. *)
 Theorem C04_pinned_clip_refuted :
   exists (l : Seg FOps) (p : V2 FOps),
     v2same (@clip_pt_pinned FOps l 1%float) (snd l) = false /\
@@ -171,4 +226,13 @@ Proof.
         repeat split; apply Rabs_le; lra.
     + constructor; [|constructor]. unfold nondeg, ex_A, ex_B; cbn [fst snd vx vy]. lra.
   - unfold between, ex_A, ex_B, ex_C; cbn [vx vy]. lra.
+Qed.
+
+(* non-vacuity of (7): the box [-2,2]^2 is good and square and owns the diagonal; a triangle is a
+   non-empty list of non-degenerate segments *)
+Example C04_clip_hyp_satisfiable : good ex_box /\ square ex_box /\ owned ex_box (ex_A, ex_B) /\
+  Forall nondeg [(ex_A, ex_B); (ex_B, mkV2 1 (-1)); (mkV2 1 (-1), ex_A)].
+Proof.
+  unfold good, square, owned, own1, ex_box, ex_A, ex_B, nondeg; cbn [b2min b2max fst snd vx vy].
+  repeat split; try lra; try (intros [? ?]; lra); repeat (apply Forall_cons || apply Forall_nil); cbn [fst snd vx vy]; lra.
 Qed.
